@@ -25,6 +25,17 @@ STRENGTHENED = {
     "C11-m4": "missed at first (every locale had a string): empty-table locales and namespaces added",
     "C14-m3": "caught only as a model/implementation disagreement (`no-failing-input-found`) until the specification was strengthened (the same route must serve the new URL); nested empty route segments added to the generator",
     "C17-m3": "missed at first (namespaces were plain identifiers, expected names read back from the generated code): namespace `user-menu`, names judged against the configuration",
+    "C04-m3": "the check crashed on the failing case at first (a Fraction in the replay payload) — repaired; caught thanks to count lists with up to 4 alternatives (generators had at most 2)",
+    "C04-m4": "same crash; caught by float declarations with non-dyadic decimals and literal counts on every written bound",
+    "C05-m3": "missed at first: plural-fallback family (forms inherited from another locale, literal counts whose category differs between the two locales) added to C05 and C06",
+    "C13-m3": "the check raised a harness error at first (per-locale cross-check paired with the wrong locale when get_all() is out of order): list-level violations are now reported before any pairing",
+    "C15-m3": "needed `resolve_locale_with_options` called under an already provided context — added",
+    "C15-m4": "needed the generated <I18nContextProvider> component itself (html-attribute props unset/true/false) — added to the harness",
+    "C16-m3": "missed at first: `t_plural!` accessors (closure and memo) added to the operation sequences",
+    "C16-m4": "missed at first: memos over `t_display!` added",
+    "C18-m3": "missed at first: every formatter clause is now also checked through `$t(..)` references (direct, with arguments, chained, inherited)",
+    "C20-m3": "missed at first: up to all seven formatter families at once over up to four namespaces",
+    "C20-m4": "missed at first: the plural key counted by a range in a later locale added to the generator",
     "C10-m1": "missed at first (different first errors under permutation were tolerated): diagnostics of the post-decoding stages are now required to be identical under permutation, with cyclic / doubly-broken projects in the corpus",
 }
 rows = []
